@@ -5,7 +5,7 @@ EXTENDS SnapshotIO
 
 QKeys == {"a.zip", "b", "d", "..", "importing"}
 QBefores == {<<>>, <<"p">>, <<"..">>, <<"", "p">>}
-QAfters == {<<>>, <<"f.zip">>, <<"..">>, <<"f.zip", "..">>, <<"..", "f.zip">>}
+QAfters == {<<>>, <<"..", "..", "x">>, <<"f.zip">>, <<"..">>, <<"f.zip", "..">>, <<"..", "f.zip">>}
 QTypes == {"reg", "dir", "symlink"}
 QBodies == {"zip", "trunc", "garbage", "empty"}
 QREntries == {{"sys"}, {"sys", "usr"}}
@@ -14,7 +14,7 @@ QCorruptions == {"none", "hash"}
 
 TKeys == {"a.zip", "b", "d", "..", "", "importing"}
 TBefores == {<<>>, <<"p">>, <<"..">>, <<"", "p">>, <<"p", "..">>}
-TAfters == {<<>>, <<"f.zip">>, <<"..">>, <<".">>, <<"f.zip", "..">>, <<"..", "f.zip">>, <<"..", "..">>}
+TAfters == {<<>>, <<"..", "..", "x">>, <<"f.zip">>, <<"..">>, <<".">>, <<"f.zip", "..">>, <<"..", "f.zip">>, <<"..", "..">>}
 TTypes == {"reg", "dir", "symlink"}
 TBodies == {"zip", "trunc", "garbage", "empty"}
 TREntries == {{"sys"}, {"sys", "usr"}}
